@@ -1297,3 +1297,37 @@ Theorem check_accepted_fast_filter acc d :
     (exists P, r = filter P d) /\
     forall kv, In kv r <-> In kv d /\ matchesP (kw_tt (Some s) t) (fst kv) /\ In (fst kv) acc.
 Proof. intro H. apply check_accepted_sound. apply check_accepted_fast_sound. exact H. Qed.
+
+(* ====================================================================== Controller.add_hook *)
+Lemma add_hook_in c cls hooks : In c (add_hook cls hooks) <-> In c hooks \/ c = cls.
+Proof.
+  unfold add_hook. destruct (existsb (Z.eqb cls) hooks) eqn:E.
+  - split; auto. intros [H| ->]; auto. apply existsb_exists in E. destruct E as [x [Hx Ex]]. apply Z.eqb_eq in Ex. subst. exact Hx.
+  - rewrite in_app_iff. simpl. intuition.
+Qed.
+
+Lemma add_hook_nodup cls hooks : NoDup hooks -> NoDup (add_hook cls hooks).
+Proof.
+  intro H. unfold add_hook. destruct (existsb (Z.eqb cls) hooks) eqn:E; auto.
+  apply (Permutation_NoDup (l := cls :: hooks)); [apply Permutation_cons_append|].
+  constructor; auto. intro Hin. apply not_true_iff_false in E. apply E. apply existsb_exists. exists cls. split; auto. apply Z.eqb_refl.
+Qed.
+
+Lemma add_hook_prefix cls hooks : exists tail, add_hook cls hooks = hooks ++ tail.
+Proof. unfold add_hook. destruct (existsb _ hooks); [exists []; symmetry; apply app_nil_r|eexists; reflexivity]. Qed.
+
+(* every requested hook class is registered exactly once, whatever else (e.g. a subclass) is already there;
+   nothing else is registered; earlier hooks keep their position *)
+Theorem add_hooks_spec requests hooks :
+  NoDup hooks ->
+  NoDup (add_hooks requests hooks) /\
+  (forall c, In c (add_hooks requests hooks) <-> In c hooks \/ In c requests) /\
+  exists tail, add_hooks requests hooks = hooks ++ tail.
+Proof.
+  unfold add_hooks. revert hooks. induction requests as [|r rs IH]; intros hooks Hnd; simpl.
+  - split; auto. split; [intuition|]. exists []. symmetry. apply app_nil_r.
+  - destruct (IH (add_hook r hooks) (add_hook_nodup r hooks Hnd)) as [H1 [H2 [tail H3]]].
+    split; auto. split.
+    + intro c. rewrite H2, add_hook_in. intuition.
+    + destruct (add_hook_prefix r hooks) as [t1 E1]. exists (t1 ++ tail). rewrite H3, E1, app_assoc. reflexivity.
+Qed.
